@@ -282,6 +282,8 @@ func gen(r *vh.Rand, tier string) []string {
 	out = append(out, sfileBoundary()...)
 	out = append(out, tfuncCases()...)
 	out = append(out, noSourceCases()...)
+	out = append(out, jbadBoundary(r)...)
+	out = append(out, vsrcBoundary(r)...)
 	formats := []string{"uri", "uripost", "raw", "json"}
 	for i := 0; i < n; i++ {
 		for _, fm := range formats {
@@ -341,6 +343,8 @@ func gen(r *vh.Rand, tier string) []string {
 			}
 		}
 		out = append(out, cfghdrsRandom(r), cfghdrsRandom(r))
+		out = append(out, jbadRandom(r), jbadRandom(r))
+		out = append(out, vsrcRandom(r), vsrcRandom(r))
 		out = append(out, strings.TrimRight(fmt.Sprintf("wfile %s %s %s", r.Pick(scenarioExts), r.Pick([]string{"http", "grpc"}), strings.Join(genWeights(r), " ")), " "))
 		{ // a mutated description of every format through the real provider constructor (fuzzed only)
 			ext := r.Pick([]string{"hcl", "hcl", "yaml", "yml"})
